@@ -870,6 +870,8 @@ def bi_hasattr(eng, st, pos, kw):
 
 def bi_getattr(eng, st, pos, kw):
     v, name = pos[0], pos[1]
+    if not isinstance(name, VConc) and lit_to_py(name) is not None:
+        name = VConc(lit_to_py(name))          # e.g. the loop variable of an unrolled loop over a list of literal names
     if not isinstance(name, VConc):
         h = eng.hooks.get("getattr_dyn")
         if h:
